@@ -280,7 +280,12 @@ func uniqOf(s string) uint64 {
 // BindTarget is the deterministic binding target of an abstract output.
 func BindTarget(tag string, n int) []byte {
 	h := sha256.Sum256([]byte("bind-target-" + tag))
-	return h[:n]
+	t := append([]byte{}, h[:n]...)
+	if n == 22 {
+		t[20] = h[20] & 1 // target type: MASS / Chia
+		t[21] = 32        // target size
+	}
+	return t
 }
 
 func (w *World) script(o Out, tag string) ([]byte, error) {
@@ -464,6 +469,34 @@ func (w *World) Compare(exp *Expect) ([]Diff, error) {
 	}
 	if int(synced) != exp.Synced {
 		add("synced-height", "", "SyncedTo", fmt.Sprint(exp.Synced), fmt.Sprint(synced))
+	}
+	// --- the pending set, read back from the wallet database through the public mwdb API ---
+	if exp.Pend != nil {
+		gotPend, unreadable, err := w.PendingSet()
+		if err != nil {
+			add("api-error", "", "pending-set", "ok", err.Error())
+		} else {
+			for _, u := range unreadable {
+				add("pending-unreadable", "", u, "a record that decodes back into the transaction", "undecodable")
+			}
+			wantP, gotP, ideal := map[string]string{}, map[string]string{}, map[string]string{}
+			for _, t := range exp.Pend {
+				wantP[t] = "pending"
+			}
+			for _, t := range exp.PendIdeal {
+				ideal[t] = "pending"
+			}
+			for _, t := range gotPend {
+				gotP[t] = "pending"
+			}
+			diffMaps(&diffs, "pending-set", "", wantP, gotP)
+			// property level: the pending set holds nothing confirmed, conflicted or orphaned
+			for t := range gotP {
+				if _, ok := ideal[t]; !ok {
+					add("pending-not-settled", "", t, "not pending (confirmed, conflicted or parent gone)", "pending")
+				}
+			}
+		}
 	}
 	names := make([]string, 0, len(exp.Views))
 	for n := range exp.Views {
@@ -768,4 +801,39 @@ func Run(u *Universe, h History, dir, mode string, opt Options) Result {
 		return Replay(u, h, dir)
 	}
 	return Result{OK: false, Step: -1, Err: "unknown mode " + mode, Sig: "infra"}
+}
+
+// PendingSet reads bucket t/m of the wallet database and decodes every record
+// back into a transaction (the "readable form" of C09).
+func (w *World) PendingSet() (names []string, unreadable []string, err error) {
+	rtx, err := w.DB.Inner().BeginReadTx()
+	if err != nil {
+		return nil, nil, err
+	}
+	defer rtx.Rollback()
+	top := rtx.TopLevelBucket("t")
+	if top == nil {
+		return nil, nil, fmt.Errorf("bucket t missing")
+	}
+	b := top.Bucket("m")
+	if b == nil {
+		return nil, nil, fmt.Errorf("bucket t/m missing")
+	}
+	it := b.NewIterator(nil)
+	defer it.Release()
+	for it.Next() {
+		k, v := it.Key(), it.Value()
+		var h wire.Hash
+		copy(h[:], k)
+		name, ok := w.TxName[h]
+		if !ok {
+			name = fmt.Sprintf("?%x", k)
+		}
+		var m wire.MsgTx
+		if len(v) < 8 || m.SetBytes(v[8:], wire.DB) != nil || m.TxHash() != h {
+			unreadable = append(unreadable, name)
+		}
+		names = append(names, name)
+	}
+	return names, unreadable, it.Error()
 }
